@@ -7,7 +7,7 @@ from .gen import pick
 from .c07 import Counting
 
 PROPERTY = "C08"
-C08_APPS = ["anext", "islice2", "takewhile", "zip_first", "zip_second", "batched2", "pairwise", "enumerate", "chain", "filter", "merge1", "iter", "borrow", "map", "dropwhile", "islice13", "accumulate", "zip_longest", "compress", "cycle"]
+C08_APPS = ["anext", "islice2", "takewhile", "zip_first", "zip_second", "batched2", "pairwise", "islice022", "enumerate", "chain", "filter", "merge1", "iter", "borrow", "map", "dropwhile", "islice13", "accumulate", "zip_longest", "compress", "cycle"]
 NA = len(C08_APPS)
 
 
@@ -160,6 +160,10 @@ def h_scoped(n: int, k0: int, k1: int, k2: int, k3: int, a0: int, a1: int, a2: i
         got, end = D2.take(h, 1)
         if got or end != "stop":
             ok = fail("scoped_iter:handle-yields-after-exit", (got, end)) and ok
+        if hasattr(h, "asend"):
+            r = D2.call(h.asend(None))
+            if not (r[0] == "exc" and type(r[1]) is StopAsyncIteration):
+                ok = fail("scoped_iter:handle-asend-works-after-exit", r) and ok
     if st.pos != pos:
         ok = fail("scoped_iter:handle-advances-underlying-after-exit") and ok
     for v in Wa.viol:
